@@ -1,10 +1,171 @@
-(* C17 -- property theorems (statements only; proofs are in C17/*Proofs.v). *)
+(* C17 -- CRC and hash routines equal their definitions and compose over concatenation.
+   Statements only; proofs are in C17/*Proofs.v, non-vacuity examples in C17/CrcExamples.v.
+
+   Vocabulary (coq/C17/CrcDefs.v):
+     width = W8|W16|W32|W64, bits k = 8|16|32|64
+     a_crc_m_init / a_crc_l_init k poly   : the 256-entry table built by a_crc<N>m_init / a_crc<N>l_init
+     a_crc_m / a_crc_l k table data value : a_crc8 / a_crc<N>m / a_crc<N>l  (option: table reads are bounds-checked)
+     a_rev k                              : a_u<N>_rev
+     crc_bits_m w poly data v             : bit-serial division, one message bit per clock, MSB first
+     crc_bits_l k poly data v             : the same LSB first with the mirrored generator bitrev poly
+     bitrev n x                           : bit i of the result = bit n-1-i of x
+     clmul, msg_poly                      : GF(2)[x] product, message as a polynomial
+     hash_len mul / hash_str_ptr mul      : a_hash_{bkdr,sdbm}_ / a_hash_{bkdr,sdbm} with mul = 131 / 65599
+     bytes data  = every element < 256 ;  nul_free s = no element is 0                              *)
 From Coq Require Import NArith List.
-From LibaV Require Import C17.CrcDefs C17.CrcProofs.
+From LibaV Require Import C17.CrcDefs C17.RevProofs C17.MainProofs C17.CrcExamples.
 Import ListNotations.
 Local Open Scope N_scope.
 
-Theorem crc_loop_concat : forall upd a b v,
-  crc_loop upd (a ++ b) v = obind (crc_loop upd a v) (crc_loop upd b).
-Proof. exact crc_loop_app. Qed.
-Print Assumptions crc_loop_concat.
+(* ---- a_u8_rev .. a_u64_rev are the bit mirror, for every word of the width ---- *)
+Theorem rev_is_bit_mirror : forall k x i, x < 2 ^ bits k -> i < bits k ->
+  N.testbit (a_rev k x) i = N.testbit x (bits k - 1 - i).
+Proof. exact a_rev_testbit. Qed.
+Print Assumptions rev_is_bit_mirror.
+
+Theorem rev_eq_bitrev : forall k x, x < 2 ^ bits k -> a_rev k x = bitrev (nbits k) x.
+Proof. exact a_rev_spec. Qed.
+Print Assumptions rev_eq_bitrev.
+
+Theorem rev_involutive : forall k x, x < 2 ^ bits k -> a_rev k (a_rev k x) = x.
+Proof. exact a_rev_involutive. Qed.
+Print Assumptions rev_involutive.
+
+(* ---- table entries: entry c is the bit-serial CRC of the one-byte message c from value 0 ---- *)
+Theorem crc_table_entry_m : forall k poly c, poly < 2 ^ bits k -> c < 256 ->
+  tab_get (a_crc_m_init k poly) c = Some (crc_bits_m (bits k) poly [c] 0).
+Proof. exact table_entry_m. Qed.
+Print Assumptions crc_table_entry_m.
+
+Theorem crc_table_entry_l : forall k poly c, poly < 2 ^ bits k -> c < 256 ->
+  tab_get (a_crc_l_init k poly) c = Some (crc_bits_l k poly [c] 0).
+Proof. exact table_entry_l. Qed.
+Print Assumptions crc_table_entry_l.
+
+(* ---- table-driven CRC = bit-by-bit division, every width / polynomial / initial value / message ---- *)
+Theorem crc_table_eq_bits_m : forall k poly data init,
+  poly < 2 ^ bits k -> init < 2 ^ bits k -> bytes data ->
+  a_crc_m k (a_crc_m_init k poly) data init = Some (crc_bits_m (bits k) poly data init).
+Proof. exact MainProofs.crc_table_eq_bits_m. Qed.
+Print Assumptions crc_table_eq_bits_m.
+
+Theorem crc_table_eq_bits_l : forall k poly data init,
+  poly < 2 ^ bits k -> init < 2 ^ bits k -> bytes data ->
+  a_crc_l k (a_crc_l_init k poly) data init = Some (crc_bits_l k poly data init).
+Proof. exact MainProofs.crc_table_eq_bits_l. Qed.
+Print Assumptions crc_table_eq_bits_l.
+
+(* ---- the bit-serial register computes the remainder of the polynomial division:
+        init*x^(8n) + M(x)*x^w = q*(x^w + poly) + crc,  deg crc < w ---- *)
+Theorem crc_bits_m_remainder : forall w poly data init,
+  1 <= w -> poly < 2 ^ w -> init < 2 ^ w -> bytes data ->
+  crc_bits_m w poly data init < 2 ^ w /\
+  exists q,
+    N.lxor (N.shiftl init (8 * N.of_nat (length data))) (N.shiftl (msg_poly data) w) =
+    N.lxor (clmul q (N.lor (2 ^ w) poly)) (crc_bits_m w poly data init).
+Proof. exact MainProofs.crc_bits_m_remainder. Qed.
+Print Assumptions crc_bits_m_remainder.
+
+Theorem crc_m_is_remainder : forall k poly data init,
+  poly < 2 ^ bits k -> init < 2 ^ bits k -> bytes data ->
+  exists r q, a_crc_m k (a_crc_m_init k poly) data init = Some r /\ r < 2 ^ bits k /\
+    N.lxor (N.shiftl init (8 * N.of_nat (length data))) (N.shiftl (msg_poly data) (bits k)) =
+    N.lxor (clmul q (N.lor (2 ^ bits k) poly)) r.
+Proof. exact MainProofs.crc_m_is_remainder. Qed.
+Print Assumptions crc_m_is_remainder.
+
+(* ---- the two bit orders are related by bit reflection of polynomial, data and value ---- *)
+Theorem crc_reflect : forall k poly data init,
+  poly < 2 ^ bits k -> init < 2 ^ bits k -> bytes data ->
+  a_crc_l k (a_crc_l_init k poly) data init =
+  option_map (bitrev (nbits k))
+    (a_crc_m k (a_crc_m_init k poly) (map (bitrev 8) data) (bitrev (nbits k) init)).
+Proof. exact MainProofs.crc_reflect. Qed.
+Print Assumptions crc_reflect.
+
+(* the same, with the library's own a_u<N>_rev / a_u8_rev doing the reflecting *)
+Theorem crc_reflect_c : forall k poly data init,
+  poly < 2 ^ bits k -> init < 2 ^ bits k -> bytes data ->
+  a_crc_l k (a_crc_l_init k poly) data init =
+  option_map (a_rev k) (a_crc_m k (a_crc_m_init k poly) (map a_u8_rev data) (a_rev k init)).
+Proof. exact MainProofs.crc_reflect_c. Qed.
+Print Assumptions crc_reflect_c.
+
+(* the reference registers themselves are mirror images (no table involved) *)
+Theorem crc_bits_reflect : forall k poly data v,
+  crc_bits_l k poly data (bitrev (nbits k) v) =
+  bitrev (nbits k) (crc_bits_m (bits k) poly (map (bitrev 8) data) v).
+Proof. exact CrcProofs.crc_bits_reflect. Qed.
+Print Assumptions crc_bits_reflect.
+
+(* ---- feeding a message in pieces with the running value carried over: every split point,
+        any table, any value ---- *)
+Theorem crc_concat_m : forall k table a b v,
+  a_crc_m k table (a ++ b) v = obind (a_crc_m k table a v) (a_crc_m k table b).
+Proof. exact MainProofs.crc_concat_m. Qed.
+Print Assumptions crc_concat_m.
+
+Theorem crc_concat_l : forall k table a b v,
+  a_crc_l k table (a ++ b) v = obind (a_crc_l k table a v) (a_crc_l k table b).
+Proof. exact MainProofs.crc_concat_l. Qed.
+Print Assumptions crc_concat_l.
+
+Theorem crc_split_m : forall k table data n v,
+  a_crc_m k table data v = obind (a_crc_m k table (firstn n data) v) (a_crc_m k table (skipn n data)).
+Proof. exact MainProofs.crc_split_m. Qed.
+Print Assumptions crc_split_m.
+
+Theorem crc_split_l : forall k table data n v,
+  a_crc_l k table data v = obind (a_crc_l k table (firstn n data) v) (a_crc_l k table (skipn n data)).
+Proof. exact MainProofs.crc_split_l. Qed.
+Print Assumptions crc_split_l.
+
+(* with a generated table no read fails, the carried value stays a w-bit word *)
+Theorem crc_chunked_m : forall k poly a b init,
+  poly < 2 ^ bits k -> init < 2 ^ bits k -> bytes a -> bytes b ->
+  exists v1 v2, a_crc_m k (a_crc_m_init k poly) a init = Some v1 /\ v1 < 2 ^ bits k /\
+                a_crc_m k (a_crc_m_init k poly) b v1 = Some v2 /\
+                a_crc_m k (a_crc_m_init k poly) (a ++ b) init = Some v2.
+Proof. exact MainProofs.crc_chunked_m. Qed.
+Print Assumptions crc_chunked_m.
+
+Theorem crc_chunked_l : forall k poly a b init,
+  poly < 2 ^ bits k -> init < 2 ^ bits k -> bytes a -> bytes b ->
+  exists v1 v2, a_crc_l k (a_crc_l_init k poly) a init = Some v1 /\ v1 < 2 ^ bits k /\
+                a_crc_l k (a_crc_l_init k poly) b v1 = Some v2 /\
+                a_crc_l k (a_crc_l_init k poly) (a ++ b) init = Some v2.
+Proof. exact MainProofs.crc_chunked_l. Qed.
+Print Assumptions crc_chunked_l.
+
+(* ---- hashes (mul = BKDR 131 or SDBM 65599, or any multiplier) ---- *)
+Theorem hash_concat : forall mul a b v,
+  hash_len mul (a ++ b) v = hash_len mul b (hash_len mul a v).
+Proof. exact MainProofs.hash_concat. Qed.
+Print Assumptions hash_concat.
+
+Theorem hash_split : forall mul s n v,
+  hash_len mul s v = hash_len mul (skipn n s) (hash_len mul (firstn n s) v).
+Proof. exact MainProofs.hash_split. Qed.
+Print Assumptions hash_split.
+
+(* string form = length form on the bytes before the terminator, whatever follows it *)
+Theorem hash_str_eq_len : forall mul s rest v, nul_free s ->
+  hash_str_ptr mul (Some (s ++ 0 :: rest)) v = Some (hash_len mul s v).
+Proof. exact MainProofs.hash_str_eq_len. Qed.
+Print Assumptions hash_str_eq_len.
+
+Theorem hash_str_chunked : forall mul a b rest v, nul_free a -> nul_free b ->
+  hash_str_ptr mul (Some ((a ++ b) ++ 0 :: rest)) v =
+  hash_str_ptr mul (Some (b ++ 0 :: rest)) (hash_len mul a v).
+Proof. exact MainProofs.hash_str_chunked. Qed.
+Print Assumptions hash_str_chunked.
+
+Theorem hash_null : forall mul v, hash_str_ptr mul None v = Some v.
+Proof. exact MainProofs.hash_null. Qed.
+Print Assumptions hash_null.
+
+(* closed form: v*mul^n + sum s_i*mul^(n-1-i)  (mod 2^32) *)
+Theorem hash_len_closed : forall mul s v, v < 2 ^ 32 ->
+  hash_len mul s v = (v * mul ^ N.of_nat (length s) + hash_sum mul s) mod 2 ^ 32.
+Proof. exact MainProofs.hash_len_closed. Qed.
+Print Assumptions hash_len_closed.
